@@ -6,14 +6,26 @@ from pyiron_workflow import as_macro_node
 from pyiron_workflow.nodes.standard import UserInput
 
 
+# set by the harness around a construction whose graph creator is to raise before it adds anything
+FAIL = False
+
+
+class CreatorFails(RuntimeError):
+    pass
+
+
 @as_macro_node("o")
 def M(self):
+    if FAIL:
+        raise CreatorFails("c13: the graph creator raises")
     self.u = UserInput(0)
     return self.u
 
 
 @as_macro_node("o")
 def MA(self):
+    if FAIL:
+        raise CreatorFails("c13: the graph creator raises")
     self.u = UserInput(0)
     return self.u
 
